@@ -145,6 +145,21 @@ pub struct L2Seq {
 
 /// Synthesize one venue message of wire family `venue` for `market` (echoed token; for Bitfinex the
 /// channel id) on `channel`. Returns the text and the events a correct normaliser produces.
+/// One top-of-book message in six states only ONE side (the other is empty: price and amount zero).
+fn one_sided(rng: &mut Rng, bp: &mut String, ba: &mut String, ap: &mut String, aa: &mut String) {
+    match rng.below(12) {
+        0 => {
+            *bp = "0.00000000".into();
+            *ba = "0.00000000".into();
+        }
+        1 => {
+            *ap = "0.00000000".into();
+            *aa = "0.00000000".into();
+        }
+        _ => {}
+    }
+}
+
 pub fn synth(venue: Venue, futures: bool, market: &str, channel: &str, rng: &mut Rng, l2: Option<&mut L2Seq>) -> (String, Vec<ExpEvent>) {
     let m = q(market);
     match venue {
@@ -167,7 +182,8 @@ pub fn synth(venue: Venue, futures: bool, market: &str, channel: &str, rng: &mut
         }
         Venue::BinanceL1 => {
             let t = ms(rng);
-            let (bp, ba, ap, aa) = (dec_text(rng, 9, 8), dec_text(rng, 9, 8), dec_text(rng, 9, 8), dec_text(rng, 9, 8));
+            let (mut bp, mut ba, mut ap, mut aa) = (dec_text(rng, 9, 8), dec_text(rng, 9, 8), dec_text(rng, 9, 8), dec_text(rng, 9, 8));
+            one_sided(rng, &mut bp, &mut ba, &mut ap, &mut aa);
             let u = rng.below(1 << 40);
             let text = if futures {
                 format!(r#"{{"e":"bookTicker","u":{u},"E":{t},"T":{t},"s":{m},"b":"{bp}","B":"{ba}","a":"{ap}","A":"{aa}"}}"#)
@@ -341,7 +357,8 @@ pub fn synth(venue: Venue, futures: bool, market: &str, channel: &str, rng: &mut
         Venue::KrakenSpread => {
             let us = ms(rng) * 1000 + rng.range(0, 999);
             let ts = format!("{}.{:06}", us / 1_000_000, us % 1_000_000);
-            let (bp, ba, ap, aa) = (dec_text(rng, 9, 8), dec_text(rng, 9, 8), dec_text(rng, 9, 8), dec_text(rng, 9, 8));
+            let (mut bp, mut ba, mut ap, mut aa) = (dec_text(rng, 9, 8), dec_text(rng, 9, 8), dec_text(rng, 9, 8), dec_text(rng, 9, 8));
+            one_sided(rng, &mut bp, &mut ba, &mut ap, &mut aa);
             let text = format!(r#"[{},["{bp}","{ap}","{ts}","{ba}","{aa}"],{},{m}]"#, rng.below(1000), q(channel));
             let ev = ExpEvent { time_ns: Some(us * 1000), time_tol_ns: 1000, body: ExpBody::L1 { bid: (bp, ba), ask: (ap, aa) } };
             (text, vec![ev])
